@@ -16,7 +16,7 @@ RULE = ('grid cells (size, max_body_size L, max_memfile_size B, framing, content
 REQUIRED = ['rejected_413', 'accepted_within_limit', 'spooled_to_disk', 'kept_in_memory', 'consumption_checked', 'chunked_cells', 'cl_cells',
             'urlencoded_refused_over_threshold', 'multipart_text_refused_over_threshold', 'multipart_file_over_threshold_delivered',
             'content_compared', 'exactly_at_limit_accepted', 'one_over_limit_rejected']
-EXHAUSTIVE = {'quick': True, 'thorough': True, 'quick_note': 'the grid without L=4096/B=4096', 'thorough_note': 'the whole grid'}
+EXHAUSTIVE = {'quick': False, 'thorough': False, 'quick_note': 'the grid units enumerate the grid without L=4096/B=4096 completely; random units add seeded off-grid cells', 'thorough_note': 'the grid units enumerate the whole grid completely; random units add seeded off-grid cells'}
 ASSUMPTIONS = ['chunked framing is exercised only where a chunk size line fits the configured buffer (B >= 16)',
                'how an over-threshold form text is refused (its status) belongs to C12; here only that it is not delivered',
                'between "one text value above the threshold" (must be refused) and "headers plus all text within the threshold" (must be delivered) either answer is accepted']
@@ -91,7 +91,7 @@ def build_app(L, B, seen):
     return app
 
 
-def cell(ctx, app, seen, S_target, L, B, framing, kind):
+def cell(ctx, app, seen, S_target, L, B, framing, kind, grid=False):
     body, info = make_body(kind, S_target)
     S = len(body)
     ctype = {'raw': 'application/octet-stream', 'urlencoded': 'application/x-www-form-urlencoded'}.get(kind, f'multipart/form-data; boundary={BOUNDARY}')
@@ -111,7 +111,7 @@ def cell(ctx, app, seen, S_target, L, B, framing, kind):
     where = f'size={S} L={L} B={B} framing={"CL" if framing == "cl" else "chunks of %d" % framing} kind={kind}'
     wit = {'unit': {'kind': 'cell', 'S': S_target, 'L': L, 'B': B, 'framing': framing, 'ckind': kind}}
     near = (L is not None and S > L - B - 1) or abs(S - B) <= 1 or S > B
-    ctx.case(None, nontrivial=near)
+    ctx.case(None if grid else (S, L, B, framing, kind), nontrivial=near)
     if r.escaped is not None or r.problems:
         ctx.violation('wsgi-contract-broken', f'{where}: {r.escaped!r} {r.problems}', wit)
         return
@@ -225,7 +225,31 @@ def sizes_for(L, B):
 def plan(tier, seed):
     Ls = [None, 0, 1, 17, 100] + ([4096] if tier == 'thorough' else [])
     Bs = [1, 16, 100] + ([4096] if tier == 'thorough' else [])
-    return [{'kind': 'grid', 'L': L, 'B': B} for L in Ls for B in Bs]
+    units = [{'kind': 'grid', 'L': L, 'B': B} for L in Ls for B in Bs]
+    # seeded cells off the grid: odd limits and thresholds, irregular chunk sizes
+    units += [{'kind': 'random', 'n': 150 if tier == 'quick' else 2500, 'sub': i} for i in range(4 if tier == 'quick' else 16)]
+    return units
+
+
+def random_unit(ctx, unit):
+    rng = ctx.rng
+    for i in range(unit['n']):
+        L = rng.choice([None, rng.randint(0, 40), rng.randint(41, 700), rng.randint(701, 9000)])
+        B = rng.choice([rng.randint(8, 40), rng.randint(41, 600), rng.randint(601, 5000), 102400])
+        seen = {}
+        app = build_app(L, B, seen)
+        for _ in range(6):
+            base = L if L is not None else B
+            S = max(0, rng.choice([base, base + 1, base - 1, base + B, base + B + 1, base + B - 1, rng.randint(0, 2 * base + 2 * B + 10), B, B + 1, 0]))
+            if S > 60000:
+                S = 60000
+            framing = rng.choice(['cl', 'cl', rng.randint(1, 2 * B + 5), B, B + 1])
+            if framing != 'cl' and (framing == 1 and S > 3000):
+                framing = 7
+            kind = rng.choice(['raw', 'raw', 'urlencoded', 'mp_text', 'mp_file'])
+            cell(ctx, app, seen, S, L, B, framing, kind)
+        if i % 300 == 0:
+            ctx.sample({'random_cell': {'max_body_size': L, 'max_memfile_size': B, 'last_size': S, 'framing': str(framing), 'kind': kind}})
 
 
 def grid_unit(ctx, unit):
@@ -241,7 +265,7 @@ def grid_unit(ctx, unit):
             if framing == 1 and S > 20000:
                 continue
             for kind in ('raw', 'urlencoded', 'mp_text', 'mp_file'):
-                cell(ctx, app, seen, S, L, B, framing, kind)
+                cell(ctx, app, seen, S, L, B, framing, kind, grid=True)
     ctx.sample({'max_body_size': L, 'max_memfile_size': B, 'sizes': sizes_for(L, B), 'framings': [str(f) for f in framings],
                 'content_kinds': ['raw', 'urlencoded', 'mp_text', 'mp_file']})
 
@@ -249,6 +273,8 @@ def grid_unit(ctx, unit):
 def run_unit(ctx, unit):
     if unit['kind'] == 'grid':
         grid_unit(ctx, unit)
+    elif unit['kind'] == 'random':
+        random_unit(ctx, unit)
     else:
         seen = {}
         app = build_app(unit['L'], unit['B'], seen)
